@@ -181,6 +181,12 @@ def normalise_class(cls_node):
 
 def normalise_module(tree):
     done = ["record " + r for r in denormalise_records(tree)] + denormalise_enums(tree)
+    k = strip_casts(tree)
+    if k:
+        done.append("%d typing.cast" % k)
+    k = defunctionalise(tree)
+    if k:
+        done.append("%d functional forms" % k)
     k = normalise_while_true(tree)
     if k:
         done.append("%d while-True loops" % k)
@@ -636,3 +642,593 @@ def normalise_while_true(tree):
     if done:
         ast.fix_missing_locations(tree)
     return done
+
+
+# ---------------------------------------------------------------------------------------------------------------------
+# Optional collaborators (whole-package pass, after every module is parsed): a parameter with default None that NOTHING in
+# the package supplies and that is only used to fall back to a default is read as that default:
+#
+#     def __init__(self, loop, stopped=None):                       def __init__(self, loop):
+#         self._stopped = Event() if stopped is None else stopped  ->     self._stopped = Event()
+#     def run(self, sleep=None): await (sleep or trio.sleep)(t)     ->   def run(self): await trio.sleep(t)
+#     self._sleep = sleep ... (trio.sleep if self._sleep is None else self._sleep)(t)  ->  trio.sleep(t)
+#     f = self._f;  if f is None: f = D                              ->   f = D
+#
+# "nothing supplies it": no call in the package has a keyword of that name, and no call to a function / class of that
+# name passes enough positional arguments to reach it.
+
+
+def _is_none_const(e):
+    return isinstance(e, ast.Constant) and e.value is None
+
+
+def _fallback_default(expr, same):
+    """D when expr is  X if X is not None else D | D if X is None else X | X or D ; else None"""
+    if isinstance(expr, ast.IfExp) and isinstance(expr.test, ast.Compare) and len(expr.test.ops) == 1 and same(expr.test.left) and _is_none_const(expr.test.comparators[0]):
+        if isinstance(expr.test.ops[0], ast.IsNot) and same(expr.body):
+            return expr.orelse
+        if isinstance(expr.test.ops[0], ast.Is) and same(expr.orelse):
+            return expr.body
+    if isinstance(expr, ast.BoolOp) and isinstance(expr.op, ast.Or) and len(expr.values) == 2 and same(expr.values[0]):
+        return expr.values[1]
+    return None
+
+
+def _rebind_if_none(stmt, name):
+    """D when stmt is `if <name> is None: <name> = D`"""
+    if isinstance(stmt, ast.If) and not stmt.orelse and len(stmt.body) == 1 and isinstance(stmt.test, ast.Compare) and len(stmt.test.ops) == 1 and isinstance(stmt.test.ops[0], ast.Is) and isinstance(stmt.test.left, ast.Name) and stmt.test.left.id == name and _is_none_const(stmt.test.comparators[0]):
+        b = stmt.body[0]
+        if isinstance(b, ast.Assign) and len(b.targets) == 1 and isinstance(b.targets[0], ast.Name) and b.targets[0].id == name:
+            return b.value
+    return None
+
+
+class _Fallbacks(ast.NodeTransformer):
+    """replace every fallback expression over `same` by its default; record loads of `same` that are anything else"""
+
+    def __init__(self, same):
+        self.same = same
+        self.other = 0
+
+    def generic_visit(self, node):
+        d = _fallback_default(node, self.same) if isinstance(node, (ast.IfExp, ast.BoolOp)) else None
+        if d is not None:
+            return self.visit(d)
+        if self.same(node) and isinstance(getattr(node, "ctx", None), ast.Load):
+            self.other += 1
+        return super().generic_visit(node)
+
+
+def _rewrite_blocks(fn, name_of_local):
+    """`x = <None>; if x is None: x = D` sequences are handled by the caller; here: `if p is None: p = D` -> `p = D`"""
+    changed = 0
+    for n in ast.walk(fn):
+        for fld in ("body", "orelse", "finalbody"):
+            seq = getattr(n, fld, None)
+            if isinstance(seq, list):
+                for i, st in enumerate(seq):
+                    d = _rebind_if_none(st, name_of_local)
+                    if d is not None:
+                        seq[i] = ast.copy_location(ast.Assign(targets=[ast.copy_location(ast.Name(id=name_of_local, ctx=ast.Store()), st)], value=d, type_comment=None), st)
+                        seq[i]._collab = True
+                        changed += 1
+    return changed
+
+
+def eliminate_optional_collaborators(trees):
+    """trees: {module name: ast.Module}; rewrites in place, returns a list of what was read as its default"""
+    import copy as _copy
+
+    # what the package's calls supply
+    kw_pairs = set()  # (callee simple name or None when it is not a plain name, keyword)
+    pos_count = {}  # callee simple name -> max number of positional arguments in any call (inf with *args)
+    for t in trees.values():
+        for n in ast.walk(t):
+            if isinstance(n, ast.Call):
+                nm = n.func.attr if isinstance(n.func, ast.Attribute) else n.func.id if isinstance(n.func, ast.Name) else None
+                for k in n.keywords:
+                    kw_pairs.add((nm, k.arg))
+                if nm:
+                    cnt = float("inf") if any(isinstance(a, ast.Starred) for a in n.args) else len(n.args)
+                    pos_count[nm] = max(pos_count.get(nm, 0), cnt)
+    done = []
+    for mname, tree in trees.items():
+        classes = [c for c in ast.walk(tree) if isinstance(c, ast.ClassDef)]
+        owner = {}
+        for c in classes:
+            for st in c.body:
+                if isinstance(st, (ast.FunctionDef, ast.AsyncFunctionDef)):
+                    owner[id(st)] = c
+        for fn in [f for f in ast.walk(tree) if isinstance(f, (ast.FunctionDef, ast.AsyncFunctionDef))]:
+            a = fn.args
+            pos = a.posonlyargs + a.args
+            cands = []
+            for i, x in enumerate(pos):
+                di = i - (len(pos) - len(a.defaults))
+                if di >= 0 and _is_none_const(a.defaults[di]):
+                    cands.append((x.arg, "pos", i))
+            for i, x in enumerate(a.kwonlyargs):
+                if a.kw_defaults[i] is not None and _is_none_const(a.kw_defaults[i]):
+                    cands.append((x.arg, "kw", i))
+            cls = owner.get(id(fn))
+            for p, kind, i in cands:
+                callee_names = {fn.name, None} | ({cls.name, "__init__", "s"} if cls is not None and fn.name == "__init__" else set())
+                if any((nm, p) in kw_pairs for nm in callee_names):
+                    continue
+                if kind == "pos":
+                    reach = i - (1 if cls is not None and not any(isinstance(d, ast.Name) and d.id == "staticmethod" for d in fn.decorator_list) else 0)
+                    if any(pos_count.get(nm, 0) > reach for nm in callee_names if nm):
+                        continue
+                    if i != len(pos) - 1 and any(not _is_none_const(d) for d in a.defaults[i - (len(pos) - len(a.defaults)) + 1 :]):
+                        continue  # (later positional parameters would shift)
+                same_p = lambda e, p=p: isinstance(e, ast.Name) and e.id == p  # noqa: E731
+                stores = [n for n in ast.walk(fn) if isinstance(n, ast.Name) and n.id == p and isinstance(n.ctx, (ast.Store, ast.Del))]
+                probe = _copy.deepcopy(fn)
+                # (1) the parameter is stored into one private field and used nowhere else
+                field = None
+                for st in probe.body:
+                    if isinstance(st, ast.Assign) and len(st.targets) == 1 and _is_self_attr(st.targets[0]) and same_p(st.value) and cls is not None and fn.name == "__init__":
+                        field = st.targets[0].attr
+                loads = [n for n in ast.walk(fn) if isinstance(n, ast.Name) and n.id == p and isinstance(n.ctx, ast.Load)]
+                if field is not None and len(loads) == 1 and not stores and field.startswith("_"):
+                    same_f = lambda e, f=field: _is_self_attr(e, f) and isinstance(getattr(e, "ctx", None), ast.Load)  # noqa: E731
+                    # every use of the field in the whole package is a fallback (or `x = self.f` + `if x is None: x = D`)
+                    ok = True
+                    touched = []
+                    for t2 in trees.values():
+                        other_stores = [n for n in ast.walk(t2) if isinstance(n, ast.Attribute) and n.attr == field and isinstance(n.ctx, (ast.Store, ast.Del))]
+                        for c2 in [c for c in ast.walk(t2) if isinstance(c, ast.ClassDef)]:
+                            if not any(_is_self_attr(n, field) for n in ast.walk(c2)):
+                                continue
+                            if c2 is not cls and not any((isinstance(b, ast.Name) and b.id == cls.name) or (isinstance(b, ast.Attribute) and b.attr == cls.name) for b in c2.bases):
+                                # another class's own attribute of that name: must not be confused -- it has its own store
+                                if any(_is_self_attr(n, field) and isinstance(n.ctx, ast.Store) for n in ast.walk(c2)):
+                                    continue
+                                ok = False
+                            touched.append(c2)
+                    if not ok:
+                        continue
+                    plans = []
+                    for c2 in touched:
+                        for f2 in [f for f in c2.body if isinstance(f, (ast.FunctionDef, ast.AsyncFunctionDef))]:
+                            cp = _copy.deepcopy(f2)
+                            if f2 is fn:
+                                cp.body = [st for st in cp.body if not (isinstance(st, ast.Assign) and len(st.targets) == 1 and _is_self_attr(st.targets[0], field))]
+                            # local = self.f ; if local is None: local = D   ->   local = D
+                            for n in ast.walk(cp):
+                                for fld in ("body", "orelse", "finalbody"):
+                                    seq = getattr(n, fld, None)
+                                    if isinstance(seq, list):
+                                        for j in range(len(seq) - 1):
+                                            s0, s1 = seq[j], seq[j + 1]
+                                            if isinstance(s0, ast.Assign) and len(s0.targets) == 1 and isinstance(s0.targets[0], ast.Name) and same_f(s0.value):
+                                                dflt = _rebind_if_none(s1, s0.targets[0].id)
+                                                if dflt is not None:
+                                                    s0.value = dflt
+                                                    s0._collab = True
+                                                    seq[j + 1] = ast.copy_location(ast.Pass(), s1)
+                            _inline_name_aliases(cp)
+                            tr = _Fallbacks(same_f)
+                            cp = tr.visit(cp)
+                            if tr.other or any(_is_self_attr(n, field) for n in ast.walk(cp)):
+                                ok = False
+                            plans.append((c2, f2, cp))
+                    if not ok:
+                        continue
+                    for c2, f2, cp in plans:
+                        if f2 is fn:
+                            _drop_param(cp, p)
+                        c2.body[c2.body.index(f2)] = cp
+                        if f2 is fn:
+                            owner[id(cp)] = c2
+                    done.append("%s.%s.%s (self.%s)" % (mname, cls.name, p, field))
+                    break  # the function object was replaced: its other candidates are handled on the next Program load pass
+                # (1b) `if p is not None: self.f = p` over a class-level `f = None`: never stored when p is not supplied
+                if cls is not None and fn.name == "__init__" and not stores:
+                    cond = [st for st in fn.body if isinstance(st, ast.If) and not st.orelse and len(st.body) == 1 and isinstance(st.test, ast.Compare) and len(st.test.ops) == 1 and isinstance(st.test.ops[0], ast.IsNot) and same_p(st.test.left) and _is_none_const(st.test.comparators[0]) and isinstance(st.body[0], ast.Assign) and len(st.body[0].targets) == 1 and _is_self_attr(st.body[0].targets[0]) and same_p(st.body[0].value)]
+                    if len(cond) == 1 and len(loads) == 2:
+                        f_ = cond[0].body[0].targets[0].attr
+                        class_none = any((isinstance(b, ast.Assign) and any(isinstance(t, ast.Name) and t.id == f_ for t in b.targets) and _is_none_const(b.value)) or (isinstance(b, ast.AnnAssign) and isinstance(b.target, ast.Name) and b.target.id == f_ and b.value is not None and _is_none_const(b.value)) for b in cls.body)
+                        other_stores = [n for t2 in trees.values() for n in ast.walk(t2) if isinstance(n, ast.Attribute) and n.attr == f_ and isinstance(n.ctx, (ast.Store, ast.Del)) and n is not cond[0].body[0].targets[0]]
+                        if class_none and not other_stores and f_.startswith("_"):
+                            same_f = lambda e, f=f_: _is_self_attr(e, f) and isinstance(getattr(e, "ctx", None), ast.Load)  # noqa: E731
+                            plans, ok = [], True
+                            for f2 in [f for f in cls.body if isinstance(f, (ast.FunctionDef, ast.AsyncFunctionDef))]:
+                                cp = _copy.deepcopy(f2)
+                                if f2 is fn:
+                                    cp.body = [st for st in cp.body if not (isinstance(st, ast.If) and st.lineno == cond[0].lineno)]
+                                for n in ast.walk(cp):
+                                    for fld in ("body", "orelse", "finalbody"):
+                                        seq = getattr(n, fld, None)
+                                        if isinstance(seq, list):
+                                            for j in range(len(seq) - 1):
+                                                s0, s1 = seq[j], seq[j + 1]
+                                                if isinstance(s0, ast.Assign) and len(s0.targets) == 1 and isinstance(s0.targets[0], ast.Name) and same_f(s0.value):
+                                                    dflt = _rebind_if_none(s1, s0.targets[0].id)
+                                                    if dflt is not None:
+                                                        s0.value = dflt
+                                                        s0._collab = True
+                                                        seq[j + 1] = ast.copy_location(ast.Pass(), s1)
+                                _inline_name_aliases(cp)
+                                tr = _Fallbacks(same_f)
+                                cp = tr.visit(cp)
+                                if tr.other or any(_is_self_attr(n, f_) for n in ast.walk(cp)):
+                                    ok = False
+                                plans.append((f2, cp))
+                            if ok and not any(isinstance(n, ast.Attribute) and n.attr == f_ for t2 in trees.values() for c2 in ast.walk(t2) if isinstance(c2, ast.ClassDef) and c2 is not cls for n in ast.walk(c2)):
+                                for f2, cp in plans:
+                                    if f2 is fn:
+                                        _drop_param(cp, p)
+                                    cls.body[cls.body.index(f2)] = cp
+                                    owner[id(cp)] = cls
+                                done.append("%s.%s.%s (class default %s)" % (mname, cls.name, p, f_))
+                                break
+                # (2) the parameter itself is only used to fall back
+                cp = _copy.deepcopy(fn)
+                n_rebind = _rewrite_blocks(cp, p) if len(stores) == 1 else 0
+                if stores and not n_rebind:
+                    continue
+                if n_rebind:
+                    # `p = D` dominates every read of p: all loads lie in the statements that follow it in its own block
+                    first, block = None, None
+                    for n in ast.walk(cp):
+                        for fld in ("body", "orelse", "finalbody"):
+                            seq = getattr(n, fld, None)
+                            if isinstance(seq, list):
+                                for st in seq:
+                                    if isinstance(st, ast.Assign) and len(st.targets) == 1 and isinstance(st.targets[0], ast.Name) and st.targets[0].id == p:
+                                        first, block = st, seq
+                    if first is None:
+                        continue
+                    after = {id(x) for st in block[block.index(first) + 1 :] for x in ast.walk(st)}
+                    if any(isinstance(n, ast.Name) and n.id == p and isinstance(n.ctx, ast.Load) and id(n) not in after for n in ast.walk(cp)):
+                        continue
+                    _drop_param(cp, p)
+                    _inline_name_aliases(cp)
+                    # `p = D; self.f = p` with p used nowhere else  ->  `self.f = D`
+                    uses = [n for n in ast.walk(cp) if isinstance(n, ast.Name) and n.id == p and isinstance(n.ctx, ast.Load)]
+                    if len(uses) == 1 and first in cp.body:
+                        j = cp.body.index(first)
+                        nxt = cp.body[j + 1] if j + 1 < len(cp.body) else None
+                        if isinstance(nxt, ast.Assign) and nxt.value is uses[0]:
+                            nxt.value = first.value
+                            del cp.body[j]
+                else:
+                    tr = _Fallbacks(same_p)
+                    cp = tr.visit(cp)
+                    if tr.other or any(isinstance(n, ast.Name) and n.id == p and isinstance(n.ctx, ast.Load) for n in ast.walk(cp)):
+                        continue
+                    _drop_param(cp, p)
+                container = cls.body if cls is not None else None
+                if container is None:
+                    for n in ast.walk(tree):
+                        for fld in ("body", "orelse", "finalbody"):
+                            seq = getattr(n, fld, None)
+                            if isinstance(seq, list) and fn in seq:
+                                container = seq
+                if container is None or fn not in container:
+                    continue
+                container[container.index(fn)] = cp
+                if cls is not None:
+                    owner[id(cp)] = cls
+                done.append("%s.%s.%s" % (mname, fn.name, p))
+                break
+        if done:
+            ast.fix_missing_locations(tree)
+    return done
+
+
+def _inline_name_aliases(fn):
+    """`f = some.dotted.name` (f bound exactly once, not a parameter) followed by uses of f  ->  the dotted name at the uses
+    (only for the aliases this pass itself produced from `x = self._f; if x is None: x = D`, marked _collab)"""
+    for n in ast.walk(fn):
+        for fld in ("body", "orelse", "finalbody"):
+            seq = getattr(n, fld, None)
+            if not isinstance(seq, list):
+                continue
+            for j, st in enumerate(list(seq)):
+                if isinstance(st, ast.Assign) and getattr(st, "_collab", False) and len(st.targets) == 1 and isinstance(st.targets[0], ast.Name):
+                    nm = st.targets[0].id
+                    v = st.value
+                    dotted_ok = isinstance(v, ast.Name) or (isinstance(v, ast.Attribute) and all(isinstance(x, (ast.Attribute, ast.Name)) for x in ast.walk(v) if not isinstance(x, ast.expr_context)))
+                    binds = [x for x in ast.walk(fn) if isinstance(x, ast.Name) and x.id == nm and isinstance(x.ctx, (ast.Store, ast.Del))]
+                    uses_ = [x for x in ast.walk(fn) if isinstance(x, ast.Name) and x.id == nm and isinstance(x.ctx, ast.Load)]
+                    # (any expression may be moved to its single use in the statement that follows directly)
+                    single = len(uses_) == 1 and j + 1 < len(seq) and any(x is uses_[0] for x in ast.walk(seq[j + 1])) and not isinstance(seq[j + 1], (ast.For, ast.While, ast.AsyncFor))
+                    if not (dotted_ok or single) or len(binds) != 1 or any(a.arg == nm for a in ast.walk(fn) if isinstance(a, ast.arg)):
+                        continue
+
+                    class Sub(ast.NodeTransformer):
+                        def visit_Name(self, node):
+                            if node.id == nm and isinstance(node.ctx, ast.Load):
+                                import copy as _c
+
+                                return ast.copy_location(_c.deepcopy(v), node)
+                            return node
+
+                    for k, other in enumerate(seq):
+                        if other is not st:
+                            seq[k] = Sub().visit(other)
+                    seq[seq.index(st)] = ast.copy_location(ast.Pass(), st)
+
+
+def _drop_param(fn, p):
+    a = fn.args
+    pos = a.posonlyargs + a.args
+    for lst in (a.posonlyargs, a.args):
+        for i, x in enumerate(lst):
+            if x.arg == p:
+                gi = pos.index(x)
+                di = gi - (len(pos) - len(a.defaults))
+                if di >= 0:
+                    del a.defaults[di]
+                del lst[i]
+                return
+    for i, x in enumerate(a.kwonlyargs):
+        if x.arg == p:
+            del a.kwonlyargs[i]
+            del a.kw_defaults[i]
+            return
+
+
+def strip_casts(tree):
+    """typing.cast(T, x) is x"""
+    names = set()
+    mods = set()
+    for n in ast.walk(tree):
+        if isinstance(n, ast.ImportFrom) and n.module in ("typing", "typing_extensions"):
+            for a in n.names:
+                if a.name == "cast":
+                    names.add(a.asname or a.name)
+        elif isinstance(n, ast.Import):
+            for a in n.names:
+                if a.name in ("typing", "typing_extensions"):
+                    mods.add(a.asname or a.name)
+    if not names and not mods:
+        return 0
+    count = [0]
+
+    class T(ast.NodeTransformer):
+        def visit_Call(self, node):
+            self.generic_visit(node)
+            f = node.func
+            is_cast = (isinstance(f, ast.Name) and f.id in names) or (isinstance(f, ast.Attribute) and f.attr == "cast" and isinstance(f.value, ast.Name) and f.value.id in mods)
+            if is_cast and len(node.args) == 2 and not node.keywords:
+                count[0] += 1
+                return node.args[1]
+            return node
+
+    T().visit(tree)
+    if count[0]:
+        ast.fix_missing_locations(tree)
+    return count[0]
+
+
+# ---------------------------------------------------------------------------------------------------------------------
+# Functional forms read as the comprehensions / loops they are (lazy in both spellings):
+#
+#     filter(f, xs)  filterfalse(f, xs)  map(f, xs)  starmap(f, xs)     ->  generator expressions
+#     attrgetter("a")(v) -> v.a    partial(g, a)(v) -> g(a, v)    operator.eq(a, b) -> a == b    (lambda p: E)(v) -> E[v/p]
+#     d.__getitem__(k) -> d[k]     d.__contains__(k) -> k in d
+#     for t in (E for v in xs if c): BODY          ->  for v in xs:  if c:  t = E; BODY
+#     for t in takewhile(lambda _: c, xs): BODY    ->  for t in xs:  if not c: break;  BODY
+#     for t in chain(a, b): BODY                   ->  for t in a: BODY;  for t in b: BODY          (BODY without break)
+#     for t in chain.from_iterable(g): BODY        ->  for _s in g:  for t in _s: BODY                (BODY without break)
+#     for _ in <generator>: pass                   is kept as the loop that drives the generator
+
+_OPS = {"eq": ast.Eq, "ne": ast.NotEq, "lt": ast.Lt, "le": ast.LtE, "gt": ast.Gt, "ge": ast.GtE, "is_": ast.Is, "is_not": ast.IsNot}
+
+
+def _imports(tree):
+    """local name -> qualified name for the itertools / functools / operator / builtins names this pass knows"""
+    out = {}
+    for n in ast.walk(tree):
+        if isinstance(n, ast.ImportFrom) and n.module in ("itertools", "functools", "operator") and n.level == 0:
+            for a in n.names:
+                out[a.asname or a.name] = "%s.%s" % (n.module, a.name)
+        elif isinstance(n, ast.Import):
+            for a in n.names:
+                if a.name in ("itertools", "functools", "operator"):
+                    out[a.asname or a.name] = a.name
+    return out
+
+
+def _qual(e, imp, shadowed):
+    if isinstance(e, ast.Name):
+        if e.id in imp and "." in imp[e.id]:
+            return imp[e.id]
+        if e.id in ("map", "filter", "zip", "repr", "set", "list", "tuple") and e.id not in shadowed and e.id not in imp:
+            return "builtins." + e.id
+        return None
+    if isinstance(e, ast.Attribute):
+        b = _qual_mod(e.value, imp)
+        if b:
+            return b + "." + e.attr
+        q = _qual(e.value, imp, shadowed)
+        if q:
+            return q + "." + e.attr
+    return None
+
+
+def _qual_mod(e, imp):
+    if isinstance(e, ast.Name) and imp.get(e.id) in ("itertools", "functools", "operator"):
+        return imp[e.id]
+    return None
+
+
+def _subst_name(expr, name, value):
+    import copy as _c
+
+    class S(ast.NodeTransformer):
+        def visit_Name(self, node):
+            if node.id == name and isinstance(node.ctx, ast.Load):
+                return ast.copy_location(_c.deepcopy(value), node)
+            return node
+
+        def visit_Lambda(self, node):
+            if any(a.arg == name for a in node.args.args):
+                return node
+            return self.generic_visit(node)
+
+    return S().visit(_c.deepcopy(expr))
+
+
+def defunctionalise(tree):
+    imp = _imports(tree)
+    shadowed = {n.id for n in ast.walk(tree) if isinstance(n, ast.Name) and isinstance(n.ctx, ast.Store)} | {n.name for n in ast.walk(tree) if isinstance(n, (ast.FunctionDef, ast.AsyncFunctionDef, ast.ClassDef))}
+    counter = [0]
+    stats = [0]
+
+    def fresh(at):
+        counter[0] += 1
+        return "_v%d_%d" % (getattr(at, "lineno", 0), counter[0])
+
+    def apply_fn(f, args, at):
+        """the expression f(*args) with f read through the spellings this pass knows; None when f is opaque"""
+        if isinstance(f, ast.Lambda) and not f.args.vararg and not f.args.kwarg and not f.args.kwonlyargs and not f.args.defaults and len(f.args.args) == len(args):
+            body = f.body
+            for a, v in zip(f.args.args, args):
+                uses = [x for x in ast.walk(body) if isinstance(x, ast.Name) and x.id == a.arg]
+                if len(uses) > 1 and not isinstance(v, (ast.Name, ast.Constant)):
+                    return None
+                body = _subst_name(body, a.arg, v)
+            return body
+        if isinstance(f, ast.Call):
+            q = _qual(f.func, imp, shadowed)
+            if q == "operator.attrgetter" and len(f.args) == 1 and isinstance(f.args[0], ast.Constant) and isinstance(f.args[0].value, str) and "." not in f.args[0].value and len(args) == 1:
+                return ast.copy_location(ast.Attribute(value=args[0], attr=f.args[0].value, ctx=ast.Load()), at)
+            if q == "functools.partial" and f.args and not any(isinstance(a, ast.Starred) for a in f.args):
+                return apply_fn(f.args[0], list(f.args[1:]) + list(args), at) or ast.copy_location(ast.Call(func=f.args[0], args=list(f.args[1:]) + list(args), keywords=list(f.keywords)), at)
+        q = _qual(f, imp, shadowed)
+        if q and q.startswith("operator.") and q.split(".")[1] in _OPS and len(args) == 2:
+            return ast.copy_location(ast.Compare(left=args[0], ops=[_OPS[q.split(".")[1]]()], comparators=[args[1]]), at)
+        if isinstance(f, ast.Attribute) and f.attr == "__getitem__" and len(args) == 1:
+            return ast.copy_location(ast.Subscript(value=f.value, slice=args[0], ctx=ast.Load()), at)
+        if isinstance(f, ast.Attribute) and f.attr == "__contains__" and len(args) == 1:
+            return ast.copy_location(ast.Compare(left=args[0], ops=[ast.In()], comparators=[f.value]), at)
+        return None
+
+    def call_of(f, args, at):
+        return apply_fn(f, args, at) or ast.copy_location(ast.Call(func=f, args=list(args), keywords=[]), at)
+
+    class Exprs(ast.NodeTransformer):
+        def visit_Call(self, node):
+            self.generic_visit(node)
+            q = _qual(node.func, imp, shadowed)
+            if node.keywords:
+                return node
+            a = node.args
+            if any(isinstance(x, ast.Starred) for x in a):
+                return node
+            v = None
+            if q in ("builtins.filter", "itertools.filterfalse") and len(a) == 2:
+                v = fresh(node)
+                var = ast.Name(id=v, ctx=ast.Load())
+                cond = var if (isinstance(a[0], ast.Constant) and a[0].value is None) else call_of(a[0], [var], node)
+                if q == "itertools.filterfalse":
+                    cond = ast.UnaryOp(op=ast.Not(), operand=cond)
+                gen = ast.GeneratorExp(elt=ast.Name(id=v, ctx=ast.Load()), generators=[ast.comprehension(target=ast.Name(id=v, ctx=ast.Store()), iter=a[1], ifs=[cond], is_async=0)])
+            elif q == "builtins.map" and len(a) == 2:
+                v = fresh(node)
+                gen = ast.GeneratorExp(elt=call_of(a[0], [ast.Name(id=v, ctx=ast.Load())], node), generators=[ast.comprehension(target=ast.Name(id=v, ctx=ast.Store()), iter=a[1], ifs=[], is_async=0)])
+            elif q == "itertools.starmap" and len(a) == 2:
+                v = fresh(node)
+                gen = ast.GeneratorExp(elt=ast.Call(func=a[0], args=[ast.Starred(value=ast.Name(id=v, ctx=ast.Load()), ctx=ast.Load())], keywords=[]), generators=[ast.comprehension(target=ast.Name(id=v, ctx=ast.Store()), iter=a[1], ifs=[], is_async=0)])
+            else:
+                # a call of a known spelling with plain arguments:  attrgetter("a")(x), partial(g, a)(x), operator.eq(a, b)
+                r = apply_fn(node.func, list(a), node) if isinstance(node.func, (ast.Call, ast.Lambda)) or (_qual(node.func, imp, shadowed) or "").startswith("operator.") else None
+                if r is not None:
+                    stats[0] += 1
+                    return ast.copy_location(r, node)
+                return node
+            stats[0] += 1
+            for x in ast.walk(gen):
+                ast.copy_location(x, node)
+            return gen
+
+    Exprs().visit(tree)
+
+    def no_break(body):
+        def walk(stmts):
+            for st in stmts:
+                if isinstance(st, ast.Break):
+                    return False
+                if isinstance(st, (ast.For, ast.While, ast.AsyncFor, ast.FunctionDef, ast.AsyncFunctionDef, ast.ClassDef)):
+                    continue
+                for fld in ("body", "orelse", "finalbody"):
+                    sub = getattr(st, fld, None)
+                    if isinstance(sub, list) and sub and isinstance(sub[0], ast.stmt) and not walk(sub):
+                        return False
+                for h in getattr(st, "handlers", []) or []:
+                    if not walk(h.body):
+                        return False
+            return True
+
+        return walk(body)
+
+    import copy as _c
+
+    def loops(stmts):
+        out = []
+        for st in stmts:
+            for fld in ("body", "orelse", "finalbody"):
+                sub = getattr(st, fld, None)
+                if isinstance(sub, list) and sub and isinstance(sub[0], ast.stmt):
+                    setattr(st, fld, loops(sub))
+            for h in getattr(st, "handlers", []) or []:
+                h.body = loops(h.body)
+            if isinstance(st, ast.For) and not st.orelse:
+                it = st.iter
+                q = _qual(it.func, imp, shadowed) if isinstance(it, ast.Call) else None
+                if isinstance(it, ast.GeneratorExp) and len(it.generators) == 1 and not it.generators[0].is_async:
+                    g = it.generators[0]
+                    inner = list(st.body)
+                    same = isinstance(st.target, ast.Name) and isinstance(it.elt, ast.Name) and isinstance(g.target, ast.Name) and it.elt.id == g.target.id
+                    if same:
+                        # for t in (v for v in xs if c)  ->  for t in xs: if c[t/v]: BODY
+                        conds = [_subst_name(c, g.target.id, ast.Name(id=st.target.id, ctx=ast.Load())) for c in g.ifs]
+                        new_target = st.target
+                    else:
+                        conds = list(g.ifs)
+                        inner = [ast.copy_location(ast.Assign(targets=[st.target], value=it.elt, type_comment=None), st)] + inner
+                        new_target = g.target
+                    for c in reversed(conds):
+                        inner = [ast.copy_location(ast.If(test=c, body=inner, orelse=[]), st)]
+                    new = ast.copy_location(ast.For(target=new_target, iter=g.iter, body=inner, orelse=[], type_comment=None), st)
+                    for x in ast.walk(new.target):
+                        if hasattr(x, "ctx"):
+                            x.ctx = ast.Store()
+                    stats[0] += 1
+                    out.extend(loops([new]))
+                    continue
+                if q == "itertools.takewhile" and len(it.args) == 2 and isinstance(it.args[0], ast.Lambda) and len(it.args[0].args.args) == 1 and isinstance(st.target, ast.Name):
+                    cond = _subst_name(it.args[0].body, it.args[0].args.args[0].arg, ast.Name(id=st.target.id, ctx=ast.Load()))
+                    guard = ast.copy_location(ast.If(test=_negate(cond), body=[ast.copy_location(ast.Break(), st)], orelse=[]), st)
+                    st.iter = it.args[1]
+                    st.body = [guard] + st.body
+                    stats[0] += 1
+                    out.extend(loops([st]))
+                    continue
+                if q == "itertools.chain" and it.args and not it.keywords and not any(isinstance(a, ast.Starred) for a in it.args) and no_break(st.body):
+                    for a in it.args:
+                        cp = _c.deepcopy(st)
+                        cp.iter = a
+                        out.extend(loops([cp]))
+                    stats[0] += 1
+                    continue
+                if q == "itertools.chain.from_iterable" and len(it.args) == 1 and no_break(st.body):
+                    v = fresh(st)
+                    inner = ast.copy_location(ast.For(target=st.target, iter=ast.copy_location(ast.Name(id=v, ctx=ast.Load()), st), body=st.body, orelse=[], type_comment=None), st)
+                    outer = ast.copy_location(ast.For(target=ast.copy_location(ast.Name(id=v, ctx=ast.Store()), st), iter=it.args[0], body=[inner], orelse=[], type_comment=None), st)
+                    stats[0] += 1
+                    out.extend(loops([outer]))
+                    continue
+            out.append(st)
+        return out
+
+    for n in ast.walk(tree):
+        if isinstance(n, (ast.FunctionDef, ast.AsyncFunctionDef)):
+            n.body = loops(n.body)
+    if stats[0]:
+        ast.fix_missing_locations(tree)
+    return stats[0]
